@@ -74,6 +74,8 @@ def eq(x, y):
         return type(x) == type(y) and x.shape == y.shape and (0 in x.shape or np.all(veq(x,y)))
     elif isinstance(x, (pd.DataFrame, pd.Series)):
         return type(x)==type(y) and _eq_attrs(x,y, attrs = ['__shape__', 'index', 'columns']) and (0 in x.shape or np.all(veq(x,y)))
+    elif isinstance(x, pd.Index):
+        return isinstance(y, pd.Index) and eq(list(x), list(y)) # label by label: Index == Index parses strings into dates and is not nan-aware
     elif isinstance(x, dict):
         if type(x) == type(y) and len(x)==len(y):
             if len(x) == 0:
@@ -87,7 +89,7 @@ def eq(x, y):
         return isinstance(y, float) and np.isnan(y)    
     elif isinstance(x, partial):
         return type(x) == type(y) and x.func == y.func and eq(x.keywords, y.keywords) and eq(x.args, y.args)
-    elif pd.api.types.is_scalar(x) and isinstance(y, (tuple, list, np.ndarray, pd.DataFrame, pd.Series, dict)):
+    elif pd.api.types.is_scalar(x) and isinstance(y, (tuple, list, np.ndarray, pd.DataFrame, pd.Series, pd.Index, dict)):
         return False # a scalar never equals a container (x == y would broadcast over y)
     else:
         try:
